@@ -5853,11 +5853,11 @@ class Query(object):
     def _actual_fetch(query, limit=None, offset=None):
         translator = query._translator
         with query._prefetch_context:
-            sql, arguments, attr_offsets, query_key = query._construct_sql_and_arguments(limit, offset)
             database = query._database
             cache = database._get_cache()
             if query._for_update: cache.immediate = True
-            cache.prepare_connection_for_query_execution()  # may clear cache.query_results
+            cache.prepare_connection_for_query_execution()  # may clear cache.query_results; flushes, so that new objects used as parameters have primary keys
+            sql, arguments, attr_offsets, query_key = query._construct_sql_and_arguments(limit, offset)
             items = cache.query_results.get(query_key)
             if items is None:
                 cursor = database._exec_sql(sql, arguments)
